@@ -54,6 +54,7 @@ type Case struct {
 // the library slept: operations themselves may be held up by the disk for any length of time).
 type beat struct {
 	start, end time.Time
+	written    time.Time // completion of the write of its content: the time stamp set afterwards cannot legitimately be older
 	idleBefore time.Duration
 }
 
@@ -101,6 +102,11 @@ func (w *world) after(op *fsx.Op) {
 		}
 		w.lastHBOp = now
 	case op.Client == "holder" && op.Path == w.hbPath:
+		if (op.Kind == "write" || op.Kind == "writestring") && op.Err == "" {
+			if n := len(w.beats); n > 0 && w.beats[n-1].end.IsZero() {
+				w.beats[n-1].written = now
+			}
+		}
 		w.lastHBOp = now
 	case op.Client == "holder" && op.Path == w.lockDir && op.Kind == "chtimes" && op.Err == "":
 		w.dirStamp = now
@@ -122,14 +128,21 @@ func (w *world) after(op *fsx.Op) {
 	}
 }
 
-// lastSignOfLife returns the completion instant of the newest heart-beat (or of the directory stamp) not after t.
+// lastSignOfLife returns, for the newest heart-beat completed (content written and time stamp set) not after t, the instant
+// at which its content had been written - the stamp it carries cannot legitimately be older than that; setting the stamp
+// may itself be held up by the disk, which is the machine's doing - or the directory stamp if there is no such heart-beat.
 func (w *world) lastSignOfLife(t time.Time) time.Time {
 	w.mu.Lock()
 	defer w.mu.Unlock()
 	c := w.dirStamp
+	var newest time.Time
 	for _, b := range w.beats {
-		if !b.end.IsZero() && !b.end.After(t) && b.end.After(c) {
-			c = b.end
+		if !b.end.IsZero() && !b.end.After(t) && b.end.After(newest) {
+			newest = b.end
+			c = b.written
+			if c.IsZero() {
+				c = b.end
+			}
 		}
 	}
 	return c
